@@ -13,6 +13,115 @@ import popgen
 import t3
 
 
+def node_purity_search(r, date, df):
+    """No function of the graph may write into the arrays it receives: a consumer that modifies its argument in place
+    changes the column other consumers (and the caller, if that column is a target) see, so a column's value would depend
+    on whether that consumer is part of the requested graph.  Every function node is called on its own on READ-ONLY copies
+    of its parents' columns (numpy then refuses any in-place write, whatever the values are), and its result is compared
+    with the column the full run reports for it (a column that was changed after it had been computed differs)."""
+    import inspect
+    import warnings
+    params, _ = popgen.env(date)
+    dag, fno = popgen.graph(date)
+    ok, res = r.attempt(f"simulate(all nodes, rounding off) at {date}", popgen.simulate_all, df, date, rounding=False)
+    if not ok:
+        return
+    cols = {c: res[c].to_numpy() for c in res.columns}
+    cols = {c: (v.astype("datetime64[D]") if v.dtype.kind == "M" else v) for c, v in cols.items()}
+    n_called = 0
+    for name, f in fno.items():
+        if name not in cols:
+            continue
+        args = list(inspect.signature(f).parameters)
+        kw = {}
+        for a in args:
+            if a.endswith("_params") and a[:-7] in params:
+                kw[a] = params[a[:-7]]
+            elif a in cols:
+                v = cols[a].copy()
+                v.flags.writeable = False
+                kw[a] = v
+            else:
+                kw = None
+                break
+        if kw is None:
+            continue
+        n_called += 1
+        try:
+            with warnings.catch_warnings():
+                warnings.simplefilter("ignore")
+                out = f(**kw)
+        except ValueError as ex:
+            if "read-only" in str(ex):
+                r.hit({"node": name, "kind": "writes-into-its-argument"},
+                      f"{name} at {date} writes into one of the arrays it receives ({str(ex)[:80]}): the columns "
+                      f"{[a for a in args if not a.endswith('_params')][:4]} then depend on whether {name} is part of the graph",
+                      {"date": date, "node": name, "data": popgen.frame_to_json(df)})
+            continue
+        except Exception:  # noqa: BLE001   (functions that cannot be called in isolation are covered by the full runs)
+            continue
+        r.case({"purity": name, "date": date})
+        out = np.broadcast_to(np.asarray(out), cols[name].shape)
+        full = cols[name]
+        if out.dtype.kind == "M" or full.dtype.kind == "M":
+            same = np.array_equal(out.astype("datetime64[D]"), full.astype("datetime64[D]"))
+        elif out.dtype.kind == "f" or full.dtype.kind == "f":
+            same = np.array_equal(out.astype(float), full.astype(float), equal_nan=True)
+        else:
+            same = np.array_equal(out, full)
+        if not same and name.endswith("_id") and popgen.same_partition(list(out), list(full)):
+            same = True
+        if not same:
+            i = int(np.argmax(np.asarray(out != full)))
+            r.hit({"node": name, "kind": "column-is-not-its-function-of-the-parents"},
+                  f"{name} at {date}: the full run reports {full[i]!r} in row {i}, the node's function applied to the reported "
+                  f"parent columns gives {out[i]!r} (a column changed after it was computed, or a consumer saw another value)",
+                  {"date": date, "node": name, "row": i, "data": popgen.frame_to_json(df)})
+    r.extra.setdefault("node_purity", {})[date] = {"functions_called_alone_on_read_only_inputs": n_called}
+
+
+def spec_source_search(r, rnd):
+    """Aggregation specifications whose source column is itself an automatic group sum (`max over a_m_hh`): the
+    specified column must be computable, with the same values, whether or not its source is requested as well."""
+    import warnings
+    import pandas as pd
+    from gettsim import compute_taxes_and_transfers
+
+    def a_m(x: float) -> float:
+        return x * 2
+
+    def uses(mx_hh: float, x: float) -> float:
+        return mx_hh + x
+
+    df = pd.DataFrame({"p_id": [0, 1, 2, 3], "hh_id": [0, 0, 1, 1], "x": [1.0, 2.5, 3.0, 0.5]})
+    for aggr in ("max", "min", "sum", "mean"):
+        for src in ("a_m_hh", "x_hh"):
+            spec = {"mx_hh": {"source_col": src, "aggr": aggr}}
+            runs = {}
+            for T in (["mx_hh", src], ["mx_hh"], ["uses"], ["uses", src]):
+                try:
+                    with warnings.catch_warnings():
+                        warnings.simplefilter("ignore")
+                        res = compute_taxes_and_transfers(data=df, params={}, functions=[a_m, uses],
+                                                          aggregate_by_group_specs=spec, targets=T)
+                    runs[tuple(T)] = ("ok", {c: res[c].tolist() for c in res.columns})
+                except Exception as ex:  # noqa: BLE001
+                    runs[tuple(T)] = ("err", f"{type(ex).__name__}: {str(ex)[:120]}")
+                r.case({"spec-source": [aggr, src], "targets": T})
+            for alone, joint, t in ((("mx_hh",), ("mx_hh", src), "mx_hh"), (("uses",), ("uses", src), "uses")):
+                a, j = runs[alone], runs[joint]
+                if j[0] == "ok" and a[0] == "err":
+                    r.hit({"node": t, "kind": "computable-only-with-other-targets", "spec_source": "automatic-group-sum"},
+                          f"with the specification mx_hh = {aggr} over {src}, the column {t} is computed when {src} is requested "
+                          f"as well and raises when it is not ({a[1][:100]})",
+                          {"aggregate_by_group_specs": spec, "targets_alone": list(alone), "targets_joint": list(joint),
+                           "data": df.to_dict("list")})
+                elif j[0] == "ok" and a[0] == "ok" and a[1][t] != j[1][t]:
+                    r.hit({"node": t, "kind": "depends-on-target-set", "spec_source": "automatic-group-sum"},
+                          f"{t} differs when {src} is requested as well: {a[1][t]} vs {j[1][t]}",
+                          {"aggregate_by_group_specs": spec, "targets_alone": list(alone), "targets_joint": list(joint)})
+
+
 def run(tier: str) -> int:
     r = common.Run("C04", tier)
     quick = tier == "quick"
@@ -22,6 +131,7 @@ def run(tier: str) -> int:
     common.build_and_audit(r, ["C04", "C04Sim", "T3"], leanchecker=not quick)
     rnd = common.rng("C04")
     t3.run_t3(r, 1000 * common.seed() + 4, 40 if quick else 600)
+    spec_source_search(r, rnd)
     for date in (popgen.DATES_QUICK if quick else popgen.DATES_2015):
         nodes = popgen.computed_nodes(date)
         for k in range(2 if quick else 6):
@@ -58,6 +168,8 @@ def run(tier: str) -> int:
                               f"{t} at {date} differs when requested with {len(T)} targets vs with all nodes",
                               {"date": date, "data": popgen.frame_to_json(df), "targets": T, "node": t,
                                "observed": a.tolist()[:30], "expected": b.tolist()[:30]})
+            if k == 0:
+                node_purity_search(r, date, df)
             # unused extra columns, debug, minimal-specification options
             T = rnd.sample(nodes, 8)
             ok, base = r.attempt("base run", popgen.simulate, df, date, targets=T)
